@@ -233,7 +233,9 @@ func rename(p *core.Prog, fn *core.Func, s string) string {
 
 // checkNarrowing: conversions of a length to a one-byte count need the
 // length bounded at every call site.
-func checkNarrowing(c *Ctx) {
+func checkNarrowing(c *Ctx) { checkNarrowingFor(c, "C11") }
+
+func checkNarrowingFor(c *Ctx, prop string) {
 	p := c.P
 	rule := "a length that is written as a single byte (compound part count, label length) is at most 255 at every call site of the encoder"
 	c.Rule(rule)
@@ -257,7 +259,7 @@ func checkNarrowing(c *Ctx) {
 			// goal: 255 - len(x) >= 0, proven locally or at every call site
 			l, okL := b.lenOf(inner.Args[0])
 			if !okL {
-				c.Check("C11/narrowing/"+fn.Name, rule, call.Pos(), false, "length not linear")
+				c.Check(prop+"/narrowing/"+fn.Name, rule, call.Pos(), false, "length not linear")
 				return true
 			}
 			goal := newLin().add(l, -1)
@@ -298,18 +300,18 @@ func checkNarrowing(c *Ctx) {
 				}
 				// report per call site so that the offending caller is named
 				if len(calls[fn]) == 0 {
-					c.Check("C11/narrowing/"+fn.Name, rule, call.Pos(), false, "no call sites found to bound "+norm(p.Canon(inner.Args[0])))
+					c.Check(prop+"/narrowing/"+fn.Name, rule, call.Pos(), false, "no call sites found to bound "+norm(p.Canon(inner.Args[0])))
 					return true
 				}
 				for _, cs := range calls[fn] {
 					one := map[*core.Func][]callRec{fn: {cs}}
 					ok, v := b.proveAtCallers(fn, goal, params, one, 0)
-					c.Check(fmt.Sprintf("C11/narrowing/%s<-%s", fn.Name, cs.fn.Name), rule, cs.call.Pos(), ok, fmt.Sprintf("%s passes a list to %s whose length is not bounded by 255: the count byte wraps and the receiver unpacks fewer parts than were packed", cs.fn.Name, fn.Name))
+					c.Check(fmt.Sprintf(prop+"/narrowing/%s<-%s", fn.Name, cs.fn.Name), rule, cs.call.Pos(), ok, fmt.Sprintf("%s passes a list to %s whose length is not bounded by 255: the count byte wraps and the receiver unpacks fewer parts than were packed", cs.fn.Name, fn.Name))
 					_ = v
 				}
 				return true
 			}
-			c.Check("C11/narrowing/"+fn.Name, rule, call.Pos(), proven, via)
+			c.Check(prop+"/narrowing/"+fn.Name, rule, call.Pos(), proven, via)
 			return true
 		})
 	}
